@@ -865,7 +865,7 @@ def grad_einsum(argnum, ans, operands_, kwargs):
                 new_operands = (g,) + rest_of_ops
 
             new_subscripts = new_input_subs + "->" + subs_wrt
-            return unbroadcast(anp.einsum(new_subscripts, *new_operands), result_meta)
+            return restretch(unbroadcast(anp.einsum(new_subscripts, *new_operands), result_meta), result_meta)
         else:  # using (op0, sublist0, op1, sublist1, ..., sublistout) convention
             if len(operands) % 2 == 0:
                 raise NotImplementedError("Need sublistout argument")
@@ -873,9 +873,20 @@ def grad_einsum(argnum, ans, operands_, kwargs):
             rest_of_ops = (
                 [operands[-1]] + operands[:argnum] + operands[(argnum + 2) : -1] + [operands[argnum + 1]]
             )
-            return unbroadcast_einsum(anp.einsum(g, *rest_of_ops), result_meta, operands[argnum + 1])
+            return restretch(
+                unbroadcast_einsum(anp.einsum(g, *rest_of_ops), result_meta, operands[argnum + 1]), result_meta
+            )
 
     return vjp
+
+
+def restretch(x, target_meta):
+    # einsum also stretches *named* axes of length 1; when that happened to another operand along an axis
+    # that is summed out, the cotangent computed above has length 1 there and must be repeated
+    target_shape = target_meta[0]
+    if anp.shape(x) != target_shape and anp.ndim(x) == len(target_shape):
+        return anp.broadcast_to(x, target_shape)
+    return x
 
 
 defvjp_argnum(anp.einsum, grad_einsum)
@@ -920,7 +931,7 @@ def unbroadcast_f(target, f):
 
 def unbroadcast_einsum(x, target_meta, subscript):
     if Ellipsis not in subscript:
-        return x
+        return unbroadcast(x, target_meta)
     elif subscript[0] == Ellipsis:
         return unbroadcast(x, target_meta, 0)
     elif subscript[-1] == Ellipsis:
